@@ -20,6 +20,7 @@ pub mod std_specs {
         where O: ::std::ops::FnOnce(E) -> ::std::result::Result<T, F> + ::std::marker::Destruct,
         requires o is Err ==> call_requires(f, (o->Err_0,)),
         ensures o is Ok ==> r is Ok && r->Ok_0 == o->Ok_0, o is Err ==> call_ensures(f, (o->Err_0,), r);
+    pub assume_specification<'a>[<String as From<&'a str>>::from](s: &str) -> (r: String) ensures r@ == s@;
     pub assume_specification[<str as AsRef<str>>::as_ref](s: &str) -> (r: &str) ensures r@ == s@;
     pub assume_specification<T>[<[T] as AsRef<[T]>>::as_ref](s: &[T]) -> (r: &[T]) ensures r@ == s@;
     pub assume_specification<'a>[<String as PartialEq<&'a str>>::eq](a: &String, b: &&str) -> (r: bool) ensures r == (a@ == b@);
